@@ -622,6 +622,27 @@ CHECKS.update({"C05": check_C05, "C06": check_C06})
 
 # ------------------------------------------------------------------ C04 tweak histories
 
+def related_tweak(sc, t):
+    """a tweak related to t: same first half / same last half / one byte or one bit changed /
+    counter-like increment of the last byte / a prefix of t / t itself"""
+    t = bytearray(t)
+    n = len(t)
+    c = sc.rng.randrange(7)
+    if c == 0:
+        t[n // 2:] = sc.rb_nz(n - n // 2)
+    elif c == 1:
+        t[:n // 2] = sc.rb_nz(n // 2)
+    elif c == 2:
+        t[sc.rng.randrange(n)] ^= 1 << sc.rng.randrange(8)
+    elif c == 3:
+        t[n - 1] = (t[n - 1] + 1) & 0xFF
+    elif c == 4:
+        t[0] = (t[0] + 1) & 0xFF
+    elif c == 5 and n > 1:
+        return bytes(t[:sc.rng.randrange(1, n)])
+    return bytes(t)
+
+
 def gen_c04(seed, tier, cap_for=lambda k: 2):
     sc = Sc(seed)
     thorough = tier == "thorough"
@@ -654,7 +675,8 @@ def gen_c04(seed, tier, cap_for=lambda k: 2):
                 sc.reset("c04-hist-%s-%d-%d" % (kind, z, h))
                 o = sc.rng.randrange(8)
                 sc.ks_set_tweaked_key(kind, o, sc.rb(z * bs))
-                for i in range(sc.rng.randrange(3, 40 if thorough else 14)):
+                lastt = bytes(bs)
+                for i in range(sc.rng.randrange(8, 40 if thorough else 20)):
                     r = sc.rng.random()
                     if r < 0.08:
                         sc.ks_set_tweak(kind, o, None, sc.rng.randrange(1, bs + 1))
@@ -663,9 +685,14 @@ def gen_c04(seed, tier, cap_for=lambda k: 2):
                     elif r < 0.16:
                         # plain key straight into the public inner schedule, then tweak changes go on
                         sc.op("ks_set_key", k=kind, o=o, t=1, key=hx(sc.rb(sc.rng.randrange(bs, 3 * bs + 1))), pk=sc.pl())
+                    elif r < 0.5:
+                        # a tweak RELATED to the one in force (shared half, one bit, counter step, prefix, same)
+                        lastt = related_tweak(sc, lastt if len(lastt) == bs else lastt + bytes(bs - len(lastt)))
+                        sc.ks_set_tweak(kind, o, lastt)
                     else:
-                        sc.ks_set_tweak(kind, o, sc.rb(sc.rng.randrange(1, bs + 1)))
-                    if sc.rng.random() < 0.35:
+                        lastt = sc.rb(sc.rng.randrange(1, bs + 1))
+                        sc.ks_set_tweak(kind, o, lastt)
+                    if sc.rng.random() < 0.5:
                         sc.ks_crypt(sc.rng.random() < 0.5, kind, o, sc.rb(bs), t=1)
                 # walking tweak bytes (every TK1 cell position)
             sc.reset("c04-walk-%s-%d" % (kind, z))
@@ -687,6 +714,16 @@ def gen_c04(seed, tier, cap_for=lambda k: 2):
                     sc.ctr_set_tweak(kind, 0, sc.rb_nz(sc.rng.randrange(1, bs + 1)))
                 sc.ctr_set_counter(kind, 0, sc.rb(bs))
                 sc.ctr_encrypt(kind, 0, sc.rb(sc.rng.randrange(1, 3 * bs)))
+            # tweak changes WITHOUT a new counter, the stream stopped in every block of an 8-block batch
+            # (first, middle and last bytes of the block), with related tweak values
+            base = sc.rb_nz(bs)
+            for blk in range(8):
+                for off in (1, bs // 2, bs - 1):
+                    sc.ctr_set_counter(kind, 0, sc.rb(bs))
+                    sc.ctr_encrypt(kind, 0, sc.rb(blk * bs + off))
+                    base = related_tweak(sc, base)
+                    sc.ctr_set_tweak(kind, 0, base)
+                    sc.ctr_encrypt(kind, 0, sc.rb(bs + 2))
             sc.ctr_cleanup(kind, 0)
     return sc
 
@@ -699,8 +736,7 @@ def check_C04(work, tier, seed):
     for neg in ("MCneg_Tweak_stale", "MCneg_Tweak_noext", "MCneg_Tweak_xornew"):
         run_mc(work, out, "MC_Tweak", neg, expect_fail=True)
     b = build(work)
-    sc = gen_c04(seed, tier)
-    lines = conform(work, b, "C04", seed, sc.text(), out)
+    lines = backend_sweep(work, b, "C04", seed, lambda cf: gen_c04(seed, tier, cf), out)
     # spec -> impl: every transition of the tweak machine's state graph on the real objects
     lines += conform(work, b, "C04", seed, graph_tweak_scenarios(work, seed, out).text(), out, tag="-graph")
     # a fresh process in which PLAIN keys of every size are expanded first (and in between): the
@@ -808,6 +844,11 @@ def check_C03(work, tier, seed):
         mc_violation("C03", out, "MC_Cipher", r)
     b = build(work)
     lines = backend_sweep(work, b, "C03", seed, lambda cf: gen_c03(seed, tier, cf), out)
+    # the 32-bit-word variants of the vector (inverse) S-boxes, under every back end
+    b32 = build(work, name="w32", defs=["SKINNY_VERIF_64BIT=0"])
+    for cap in (2, 1, 0):
+        axis_compare(work, "C03", seed, out, lines, "SKINNY_64BIT=0 cap %d" % cap, b32,
+                     gen_c03(seed, tier, lambda k, cap=cap: cap).text(), "-w32-%d" % cap)
     # spec -> impl: every transition of the mode machine's state graph on the real objects
     lines += conform(work, b, "C03", seed, graph_mode_scenarios(work, seed, lambda k: 2, out).text(), out, tag="-graph")
     note_distinct(out, lines, ("o", "n", "tweak", "mode"))
@@ -885,11 +926,13 @@ def check_C07(work, tier, seed):
     run_mc(work, out, "MC_Par", "MCneg_Par_noremainder", expect_fail=True)
     b = build(work)
     lines = backend_sweep(work, b, "C07", seed, lambda cf: gen_c07(seed, tier, cf), out)
-    # the byte-wise load/store variants of the vector code (strict-alignment targets), every back end
-    b2 = build(work, name="noua", defs=["SKINNY_VERIF_UNALIGNED=0"])
-    for cap in (2, 1, 0):
-        axis_compare(work, "C07", seed, out, lines, "SKINNY_UNALIGNED=0 cap %d" % cap, b2,
-                     gen_c07(seed, tier, lambda k, cap=cap: cap).text(), "-noua%d" % cap)
+    # the byte-wise load/store variants of the vector code (strict-alignment targets) and the
+    # 32-bit-word variants of the vector S-boxes, under every back end
+    for bname, defs in (("noua", ["SKINNY_VERIF_UNALIGNED=0"]), ("w32", ["SKINNY_VERIF_64BIT=0"])):
+        b2 = build(work, name=bname, defs=defs)
+        for cap in (2, 1, 0):
+            axis_compare(work, "C07", seed, out, lines, "%s cap %d" % (defs[0], cap), b2,
+                         gen_c07(seed, tier, lambda k, cap=cap: cap).text(), "-%s%d" % (bname, cap))
     note_distinct(out, lines, ("o", "n", "tweak", "cap"))
     out.samples = sample_events([x for x in lines if '"par_' in x])
     return out, dict(
@@ -908,7 +951,10 @@ def check_C07(work, tier, seed):
 def gen_c10(seed, tier, cap_for=lambda k: 2):
     sc = Sc(seed)
     thorough = tier == "thorough"
-    HUGE = (2147483647, 4294967295, 65536 + 16, 256 + 16)
+    # far out of range, and classes that wrap to an accepted value if the length is narrowed to 8/16 bits
+    # or scaled (x8 bits, x2 nibbles, x16) in 32-bit arithmetic
+    HUGE = (2147483647, 4294967295, 65536 + 16, 256 + 16, (1 << 29) + 8, (1 << 29) + 16, (1 << 29) + 24,
+            (1 << 30) + 16, (1 << 28) + 16, (1 << 31) + 16, (3 << 29) + 24, (1 << 24) + 32)
     for kind in ("s128", "s64"):
         bs = BS[kind]
         lens = list(range(0, 3 * bs + 17))
@@ -997,7 +1043,7 @@ def gen_c10(seed, tier, cap_for=lambda k: 2):
                 sc.mk_crypt(0, sc.rb(8))
                 sc.ctr_encrypt("mantis", 0, sc.rb(9))
                 sc.par_crypt("mantis", 0, sc.rb(16), tweak=sc.rb(16))
-    for rounds in (2147483647, 4294967295, 13, 256 + 6):
+    for rounds in (2147483647, 4294967295, 13, 256 + 6, 65536 + 7, (1 << 29) + 5, (1 << 31) + 8):
         sc.mk_set_key(0, sc.rb(16), rounds, 1)
         sc.ctr_set_key("mantis", 0, sc.rb(16), rounds=rounds)
     sc.mk_crypt(0, sc.rb(8))
@@ -1056,12 +1102,15 @@ def ctr_use_all(sc, kind, o, mid=False):
         sc.ctr_set_tweaked_key(kind, o, valid_key(sc, kind, True))
     sc.ctr_set_tweak(kind, o, sc.rb(bs if kind != "mantis" else 8))
     sc.ctr_set_counter(kind, o, sc.rb(bs))
+    sc.ctr_encrypt(kind, o, b"")                               # an empty request is still a call on the object
     sc.ctr_encrypt(kind, o, sc.rb(bs + 3 if mid else 2 * bs))
 
 
 def par_use_all(sc, kind, o):
     bs = BS[kind]
+    sc.par_set_key(kind, o, valid_key(sc, kind), rounds=6, mode=0)     # both Mantis modes (ignored by SKINNY)
     sc.par_set_key(kind, o, valid_key(sc, kind), rounds=6, mode=1)
+    sc.par_crypt(kind, o, b"", enc=True, tweak=b"" if kind == "mantis" else None)
     if kind == "mantis":
         sc.par_swap(o)
         sc.par_crypt(kind, o, sc.rb(9 * bs), tweak=sc.rb(9 * bs))
@@ -2012,7 +2061,8 @@ def gen_c19(seed, tier):
             sc.ks_set_tweaked_key(kind, 0, sc.rb(z * bs))
             blk = sc.rb(bs)
             sc.ks_crypt(True, kind, 0, blk, t=1)          # fresh: zero tweak
-            for i in range(30 if thorough else 10):
+            lastt = bytes(bs)
+            for i in range(40 if thorough else 16):
                 r = sc.rng.random()
                 if r < 0.15:
                     sc.ks_set_tweak(kind, 0, None, bs)      # NULL = all-zero
@@ -2021,9 +2071,14 @@ def gen_c19(seed, tier):
                 elif r < 0.32:
                     sc.ks_set_tweak(kind, 0, sc.rb(bs + 1), bs + 1)    # invalid
                     sc.ks_set_tweak(kind, 0, sc.rb(bs), 0)
+                elif r < 0.65:
+                    lastt = related_tweak(sc, lastt)
+                    lastt = lastt + bytes(bs - len(lastt)) if len(lastt) < bs else lastt    # Arduino: full length only
+                    sc.ks_set_tweak(kind, 0, lastt)
                 else:
-                    sc.ks_set_tweak(kind, 0, sc.rb(bs))
-                if sc.rng.random() < 0.5:
+                    lastt = sc.rb(bs)
+                    sc.ks_set_tweak(kind, 0, lastt)
+                if sc.rng.random() < 0.6:
                     sc.ks_crypt(sc.rng.random() < 0.5, kind, 0, sc.rb(bs), t=1)
             for bad in (0, bs - 1, 2 * bs + 1):
                 sc.ks_set_tweaked_key(kind, 0, sc.rb(bad) if bad else b"", bad)
@@ -2183,6 +2238,13 @@ def gen_tool_cases(seed, tier):
                         tw = rb(twl - 1) + b"\xff" if twl > 1 else b"\xff"   # carries in the tweak/counter
                 dec = 1 if (tool != "ctr" and rng.random() < 0.4) else 0
                 good.append(dict(tool=tool, bs=bs, key=rb(kl), tw=tw, dec=dec, data=rb(fl)))
+            # tweak / counter values whose increment carries across byte 8 from the right (and all-FF)
+            if tool != "ecb" and bs == 16:
+                for twv in (rb(4) + b"\xff" * 11 + b"\xfe", b"\xff" * 16, rb(1) + b"\xff" * 8, b"\x00" * 7 + b"\xff" * 9):
+                    good.append(dict(tool=tool, bs=bs, key=rb(bs), tw=twv, dec=0, data=rb(5 * bs + 3)))
+            if tool != "ecb" and bs == 8:
+                for twv in (b"\xff" * 8, rb(3) + b"\xff" * 4 + b"\xfe", b"\xff" * 3):
+                    good.append(dict(tool=tool, bs=bs, key=rb(bs), tw=twv, dec=0, data=rb(5 * bs + 3)))
             # large files at both ends of the key range
             for fl in ([1024 + bs + 3] if not thorough else [2048 + 1, 3 * 1024 + 17]):
                 if tool == "tweak" and bs == 16 and not thorough:
@@ -2513,7 +2575,7 @@ class SecretSc(Sc):
         return self.rb(n)
 
 
-def gen_c08(seed, tier, secret_mode):
+def gen_c08(seed, tier, secret_mode, scalar_only=False):
     sc = SecretSc(seed, secret_mode)
     sc.lines = ["env", "set fast=1"]
     thorough = tier == "thorough"
@@ -2543,7 +2605,7 @@ def gen_c08(seed, tier, secret_mode):
             sc.mk_crypt(0, sc.rb(8))
     for kind in ("s128", "s64", "mantis"):
         bs = BS[kind]
-        for cap in CAPS[kind]:
+        for cap in ((0,) if scalar_only else CAPS[kind]):
             sc.reset("c08-ctr-%s-cap%d" % (kind, cap))
             sc.ctr_init(kind, 0, cap=cap)
             if kind == "mantis":
@@ -2631,39 +2693,51 @@ def check_C08(work, tier, seed):
     out = Outcome()
     modes = ["ones", "zeros", "edge8", "edge4", "rand1"] if tier == "quick" else \
         ["ones", "zeros", "edge8", "edge4", "edge1", "rand1", "rand2", "rand3", "rand4"]
-    builds = [("shipped", dict())]
+    builds = [("shipped", dict()),
+              # the 32-bit-word scalar code paths (S-boxes, LFSRs, Mantis rows): a reduced scenario in the
+              # quick tier (key schedules, single blocks, generic CTR/parallel), the full one in thorough
+              ("w32-scalar", dict(defs=["SKINNY_VERIF_64BIT=0", "SKINNY_VERIF_VEC128_MATH=0", "SKINNY_VERIF_VEC256_MATH=0"],
+                                  built128=0, built256=0))]
     if tier == "thorough":
-        builds += [("w32-scalar", dict(defs=["SKINNY_VERIF_64BIT=0", "SKINNY_VERIF_VEC128_MATH=0", "SKINNY_VERIF_VEC256_MATH=0"],
-                                      built128=0, built256=0)),
-                   ("gcc-O0", dict(opt="-O0"))]
+        builds += [("gcc-O0", dict(opt="-O0")),
+                   ("neutral", dict(defs=["SKINNY_VERIF_64BIT=0", "SKINNY_VERIF_LITTLE_ENDIAN=0", "SKINNY_VERIF_VEC128_MATH=0",
+                                          "SKINNY_VERIF_VEC256_MATH=0"], built128=0, built256=0))]
     nwin = 0
+    from concurrent.futures import ThreadPoolExecutor
+    plan = []
     for bname, kw in builds:
         b = build(work, name="foot-" + bname, extra_drv=["-no-pie"], **kw)
         sh(["gcc", "-O2", "-o", os.path.join(b.root, "footwin"), os.path.join(HARNESS, "footwin.c")])
-        texts = {m: gen_c08(seed, tier, m).text() for m in modes}
+        reduced = (tier == "quick" and bname != "shipped")
+        bmodes = ["ones", "zeros", "rand1"] if reduced else modes
+        texts = {m: gen_c08(seed, tier, m, scalar_only=reduced).text() for m in bmodes}
         pubs = None
-        for m in modes:
+        for m in bmodes:
             pv = [public_view(l) for l in texts[m].split("\n") if l.split(" ")[0].startswith(("ks_", "mk_", "ctr_", "par_"))]
             if pubs is None:
                 pubs = pv
             elif pubs != pv:
                 raise Broken("secret variants differ in their public structure")
-        from concurrent.futures import ThreadPoolExecutor
-        with ThreadPoolExecutor(max_workers=len(modes)) as tp:
-            res = list(tp.map(lambda m: lackey_run(work, b, texts[m], bname + "-" + m), modes))
+        plan.append((bname, b, bmodes, texts, pubs))
+    jobs = [(bname, b, m, texts[m]) for bname, b, bmodes, texts, pubs in plan for m in bmodes]
+    with ThreadPoolExecutor(max_workers=min(NCPU, len(jobs))) as tp:
+        allres = list(tp.map(lambda j: lackey_run(work, j[1], j[3], j[0] + "-" + j[2]), jobs))
+    resmap = {(j[0], j[2]): r for j, r in zip(jobs, allres)}
+    for bname, b, bmodes, texts, pubs in plan:
         events = []
-        for m, (wins, olines, rc) in zip(modes, res):
+        for m in bmodes:
+            wins, olines, rc = resmap[(bname, m)]
             if rc != 0 or any('"e":"crash"' in x for x in olines):
-                raise Broken("driver failed under valgrind (%s, rc=%s)" % (m, rc))
+                raise Broken("driver failed under valgrind (%s %s, rc=%s)" % (bname, m, rc))
             if len(wins) != len(pubs):
-                raise Broken("expected %d call windows, lackey log has %d (%s)" % (len(pubs), len(wins), m))
+                raise Broken("expected %d call windows, lackey log has %d (%s %s)" % (len(pubs), len(wins), bname, m))
             for (idx, n, nst, dg), pub in zip(wins, pubs):
                 events.append(json.dumps({"e": "foot", "run": m, "build": bname, "idx": int(idx), "pub": pub,
                                           "n": int(n), "stores": int(nst), "digest": dg}))
             nwin += len(wins)
         out.events += len(events)
         r = validate_trace(work, events, module="FootTrace")
-        out.traces_tlc += len(modes)
+        out.traces_tlc += len(bmodes)
         if not r.accepted:
             bad = events[r.consumed] if r.consumed < len(events) else "{}"
             ev = json.loads(bad)
@@ -2671,8 +2745,8 @@ def check_C08(work, tier, seed):
             with open(p + ".scn", "w") as f:
                 f.write("# secret variant %s of build %s\n" % (ev.get("run"), bname) + texts.get(ev.get("run"), ""))
             out.violations.append(("foot:%s" % ev.get("pub", "")[:60], p,
-                                   "footprint of call #%s (%s) depends on secret values: run '%s' differs from run '%s' | %s"
-                                   % (ev.get("idx"), ev.get("pub"), ev.get("run"), modes[0], " ".join(r.messages)[:300])))
+                                   "footprint of call #%s (%s) in build %s depends on secret values: run '%s' differs from run '%s' | %s"
+                                   % (ev.get("idx"), ev.get("pub"), bname, ev.get("run"), bmodes[0], " ".join(r.messages)[:300])))
         for e in events[:len(pubs)]:
             out.distinct.add(json.loads(e)["pub"] + bname)
         if not out.samples:
@@ -2682,7 +2756,8 @@ def check_C08(work, tier, seed):
         rule="Each public call of a scenario covering key and tweak set-up (every length class), tweak change, "
              "single-block enc/dec, CTR (request sizes around block and batch edges, rekey mid-stream, short counter), "
              "parallel with and without remainder, Mantis both modes, on every back end (cap 0/1/2), is executed on "
-             "the shipped binary (gcc -O3, SIMD on; thorough: also the 32-bit scalar build and -O0) under "
+             "the shipped binary (gcc -O3, SIMD on) and on the 32-bit-word scalar build (quick: reduced scenario; "
+             "thorough: full scenario, plus -O0 and the byte-order-neutral build) under "
              "valgrind/lackey once per secret assignment: all-0xFF secrets (longest counter carry chains), all-zero "
              "secrets, counters chosen so that the lane counters pass through zero after the first batch (carry and "
              "borrow chains of maximal and minimal length), seeded random secrets (quick 5, thorough 9 assignments). The complete sequence of instruction "
